@@ -230,6 +230,16 @@ def _touch(ex, st, args, kwargs, node):
     return gen()
 
 
+def _writer_forbidden(what):
+    def nat(ex, st, args, kwargs, node):
+        def gen():
+            import z3
+            ex.ctx.oblige(st, "frame-write", f"candles-are-only-touched-through-the-members-own-operations: {what}", z3.BoolVal(False), node)
+            yield st, None
+        return gen()
+    return nat
+
+
 OPS_NATIVES = {I + "purge": _touch, I + "calculate": _touch, I + "recalculate": _touch}
 EXACT = {"first-touched-iff-named": "iff(i1.touched == True, name == n1)", "second-touched-iff-named": "iff(i2.touched == True, name == n2)"}
 for _op in ("purge", "calculate", "recalculate"):
@@ -321,6 +331,39 @@ HEX_TASKS[H + "remove_indicator"] = dict(builder=remove_builder, natives={I + "p
         "other-member-untouched": "i2.touched == False and i2._candles is m1",
         "every-manager-stays-registered": "LenOf(self._candles) == 2 and self._candles['default'] is m0 and self._candles['T5'] is m1",
     }, result_type="None", props=["C13", "C14", "C08"], use_at_calls=False))
+
+
+# ... and without a name every member is reached through its OWN operation (which removes / computes exactly that member's
+# entries: Indicator.purge under C14), never by wiping the candles wholesale
+def hexital_ops_all_builder(ex, st):
+    """two members (stubs recording which operation reached them) and a default manager over two concrete candles that carry an
+    entry no member wrote and a conversion tag"""
+    from hexvc.state import DictP, ListP, ObjP
+    src = ex.ctx.source
+    hcls = src.module("hexital.core.hexital").classes["Hexital"]
+    icls = src.module("hexital.indicators.ema").classes["EMA"]
+    mcls = src.module("hexital.core.candle_manager").classes["CandleManager"]
+    ccls = src.module("hexital.core.candle").classes["Candle"]
+    for c in (hcls, icls, mcls, ccls):
+        src.resolve_class_bases(c)
+    mkc = lambda: st.alloc(ObjP(ccls, {"indicators": st.alloc(DictP({"FOREIGN": 1.0})), "sub_indicators": st.alloc(DictP({})), "_tag": "Heikin-Ashi",
+                                       "clean_values": st.alloc(DictP({}))}))
+    c1, c2 = mkc(), mkc()
+    m0 = st.alloc(ObjP(mcls, {"candles": st.alloc(ListP([c1, c2])), "timeframe": None, "timeframe_fill": False, "candles_lifespan": None, "candlestick_type": None}))
+    i1 = st.alloc(ObjP(icls, {"_output_name": "first", "touched": False}))
+    i2 = st.alloc(ObjP(icls, {"_output_name": "second", "touched": False}))
+    h = st.alloc(ObjP(hcls, {"name": "hex", "_candles": st.alloc(DictP({"default": m0})), "_indicators": st.alloc(DictP({"first": i1, "second": i2}))}))
+    yield st, [h, None], {}, {"self": h, "name": None, "i1": i1, "i2": i2, "c1": c1, "c2": c2}
+
+
+for _op in ("purge", "calculate", "recalculate"):
+    HEX_TASKS[H + _op + "#every-member"] = dict(
+        qualname=H + _op, builder=hexital_ops_all_builder, natives=dict(OPS_NATIVES, **{
+            "hexital.core.candle.Candle.reset_candle": _writer_forbidden("Candle.reset_candle"), "hexital.core.candle_manager.CandleManager.purge": _writer_forbidden("CandleManager.purge")}),
+        contract=Contract(H + _op, ensures={"every-member-reached-through-its-own-operation": "i1.touched == True and i2.touched == True",
+                                            "entries-of-others-and-the-conversion-tag-stay": "c1.indicators['FOREIGN'] == 1.0 and c2.indicators['FOREIGN'] == 1.0"
+                                                                                             " and c1._tag == 'Heikin-Ashi' and c2._tag == 'Heikin-Ashi'"},
+                          result_type="None", props=["C13", "C14"], use_at_calls=False))
 
 
 # ---- C08: an indicator's settings dict builds the same indicator again
